@@ -255,7 +255,7 @@ CHECKS = {
                     "each field takes every value of a hostile set (-1, -2, 0, 1, true+-1, exactly the remaining bytes, +1, +2, 512/513, 2^15-1, 2^16, 65537, 2^31-1, -2^31, and for varints 2^31, 2^32-1, 2^63-1, 2^63, 2^64-1, "
                     "10- and 11-byte over-long and an unterminated encoding); varints are re-spliced with the frame size prefix both adjusted and left as is; each mutated frame is supplied exactly (then EOF), followed by further responses, "
                     "cut to a prefix, and with the frame size raised to 2^31-1. Every frame is decoded by protocol.ReadResponse in a worker process (RLIMIT_AS 3 GiB, 64 MiB stacks, collector off while decoding, 2 s watchdog); "
-                    "a sample also goes through kafka.Transport.RoundTrip against an in-memory broker, and the raw SASL token length through RawExchange and a SASL Transport on the v0 handshake path; consumer-protocol values (member metadata, assignments) with every nested length mutated go through protocol.Unmarshal (as Client.JoinGroup / SyncGroup call it) and, inside a well-formed DescribeGroups response, through Client.DescribeGroups, which has readers of its own. "
+                    "a sample also goes through kafka.Transport.RoundTrip against an in-memory broker and, for 19 APIs, through the kafka.Client method of the API (Produce, Fetch with all records read, ListOffsets, Metadata, OffsetCommit/Fetch, FindCoordinator, the group APIs, DescribeGroups, ListGroups, ApiVersions, DeleteTopics, InitProducerID, DeleteGroups) with random bodies and with bodies that answer the request (topic, partition, group as asked, no error codes), so that the client's own post-processing of the decoded arrays is judged too, and the raw SASL token length through RawExchange and a SASL Transport on the v0 handshake path; consumer-protocol values (member metadata, assignments) with every nested length mutated go through protocol.Unmarshal (as Client.JoinGroup / SyncGroup call it) and, inside a well-formed DescribeGroups response, through Client.DescribeGroups, which has readers of its own. "
                     "Oracle: outcome error or decoded message; panic, no return, worker death (out of memory, stack overflow), more than 1 MiB + 1024 x bytes supplied allocated, or bytes consumed beyond the announced frame are violations. "
                     "Quick enumerates first/last/flexible-boundary/one seeded version per API, thorough all versions with two corpus seeds and more values; thorough adds 3 min of native fuzzing of ReadResponse(api, version, bytes) with the same oracle in-process."),
         level_note=("one field at a time (plus the frame size in the 'bigframe' supply mode): combinations of several hostile fields are left to the fuzzer; fields inside checksummed content (record bodies, v0/v1 key/value lengths, v2 record count) are outside the statement and only observed; "
@@ -267,7 +267,7 @@ CHECKS = {
                      "well-formed record sets cost the library one 64 KiB page per v0/v1 message or v2 batch (observed, see notes): corpus frames carry records in at most two partitions so that unmutated frames stay below half the bound"],
         units=[
             dict(run="TestMutations", checks=None, shards_quick=1, shards_thorough=4, timeout=900),
-            dict(run="TestTransport", checks=None, shards_quick=1, shards_thorough=2, timeout=900),
+            dict(run="TestTransport", checks=None, shards_quick=2, shards_thorough=4, timeout=900),
             dict(run="TestArrays", build="unsafe", checks=None, shards_quick=1, shards_thorough=2, timeout=900),
             dict(run="TestGroupMetadata", checks=None, timeout=600),
             dict(run="TestCompressedLengths", checks=None, timeout=600),
